@@ -39,6 +39,7 @@
 #include "SmoothSegmentedFunction.h"
 #include <fstream>
 #include <ostream>
+#include <algorithm>
 #include <rbdl/rbdl_errors.h>
 
 //=============================================================================
@@ -228,6 +229,20 @@ void SmoothSegmentedFunction::scale(double xScale, double yScale)
     for(int j=0; j<_mXVec.at(i).rows(); ++j) {
       _mXVec.at(i)[j] *= xScale;
       _mYVec.at(i)[j] *= yScale;
+    }
+  }
+
+  //A negative xScale mirrors the curve: restore the ascending order of the
+  //end points, of the sections, and of the control points in each section
+  if(xScale < 0) {
+    std::swap(_x0,    _x1);
+    std::swap(_y0,    _y1);
+    std::swap(_dydx0, _dydx1);
+    std::reverse(_mXVec.begin(), _mXVec.end());
+    std::reverse(_mYVec.begin(), _mYVec.end());
+    for(int i=0; i<_mXVec.size(); ++i) {
+      _mXVec.at(i).reverseInPlace();
+      _mYVec.at(i).reverseInPlace();
     }
   }
 
